@@ -130,7 +130,7 @@ func init() { register(c07{}) }
 
 func (c07) ID() string     { return "C07" }
 func (c07) Level() string  { return "exploration" }
-func (c07) QuickRuns() int { return 150000 }
+func (c07) QuickRuns() int { return 600000 }
 func (c07) Rule() string {
 	return "common.TracerouteParallel driven by a scripted driver whose SendProbe and ReceiveProbe park at the seeded scheduler: per TTL 0-3 scripted responses (some destination, several destination TTLs, duplicates, late ones, retryable errors, poll time-outs), send delay 0..20 ms (0 = every send races every receive); the scheduler's choice tape decides the interleaving of sends and hand-outs; the returned list must equal the reference fold (first wins, destination overrides, clip at lowest destination TTL) over the exact hand-out sequence; non-trivial = at least two responses were handed out; distinct = distinct interleavings (hash of the release sequence). Seeded search, not enumeration"
 }
